@@ -685,6 +685,7 @@ structure C12Conn where
   matched : Bool := false
 
 structure C12St where
+  synLocs : List (Nat × String) := []     -- line of a tcp_connect OP ↦ source address of the SYN it sent
   conns : List C12Conn := []
   accepts : List (String × String × Bool) := []     -- (local, peer, matched)
   arrivals : List String := []                      -- SYN source addresses in arrival order at the listener
@@ -716,7 +717,8 @@ def c12Step (st : C12St) (x : Nat × List String × List String) : C12St :=
   match op with
   | [h, "tcp_connect", s, dst] =>
     if obs == ["err", "slotbusy"] then st else
-    let st := { st with conns := st.conns ++ [{ host := hostTok h, slot := slotTok s, dst := dst }] }
+    let loc := (st.synLocs.find? (·.1 == ln)).map (·.2)
+    let st := { st with conns := st.conns ++ [{ host := hostTok h, slot := slotTok s, dst := dst, loc := loc }] }
     c12Result st ln (hostTok h) (slotTok s) obs
   | [h, "tcp_cpoll", s] => c12Result st ln (hostTok h) (slotTok s) obs
   | [h, "drop", s] =>
@@ -725,7 +727,12 @@ def c12Step (st : C12St) (x : Nat × List String × List String) : C12St :=
     else st
   | [_, "tcp_accept", _, _] =>
     match obs with
-    | ["ok", loc, peer] => { st with accepts := st.accepts ++ [(loc, peer, false)] }
+    | ["ok", loc, peer] =>
+      -- the most recent connector that used this source address
+      let st := match st.conns.reverse.find? (fun c => c.loc == some peer) with
+        | some c => if c.status == "gaveup" then st.fail ln s!"accept handed out {peer}, a connector that had already given up" else st
+        | none => st
+      { st with accepts := st.accepts ++ [(loc, peer, false)] }
     | _ => st
   | ["ctl", "mark", "settled"] => { st with settled := true }
   | [h, "count"] =>
@@ -741,7 +748,15 @@ def portOf (a : String) : String := match a.splitOn ":" with | [_, p] => p | _ =
 
 def oracleC12 (lines : List String) : OResult :=
   let pairs := opObsPairs lines
-  let st := pairs.foldl c12Step {}
+  -- source address of each connect's SYN, from the `Send` trace event that follows the OP line
+  let (synLocs, _, _) := lines.foldl (fun (acc : List (Nat × String) × Option Nat × Nat) l =>
+    let (out, cur, ln) := acc
+    match toks l with
+    | ["OP", _, "tcp_connect", _, _] => (out, some ln, ln + 1)
+    | ["EV", "send", src, _, "syn"] => (match cur with | some n => ((n, src) :: out, none, ln + 1) | none => (out, none, ln + 1))
+    | "OBS" :: _ => (out, none, ln + 1)
+    | _ => (out, cur, ln + 1)) ([], none, 1)
+  let st := pairs.foldl c12Step { synLocs := synLocs }
   let res := st.res
   -- (1) every successful connect is matched by exactly one accept with mirrored addresses
   let (res, accepts) := st.conns.foldl (fun (acc : OResult × List (String × String × Bool)) c =>
@@ -785,7 +800,7 @@ where
     | _ :: _, [] => false
     | x :: xs, y :: ys => if x == y then isSubseqS xs ys else isSubseqS (x :: xs) ys
 
-def oracle (prop : String) (lines : List String) (modelCov : List String := []) : OResult :=
+def oracleRaw (prop : String) (lines : List String) (modelCov : List String) : OResult :=
   match prop with
   | "C02" => oracleC02 lines modelCov
   | "C12" => oracleC12 lines
@@ -794,5 +809,16 @@ def oracle (prop : String) (lines : List String) (modelCov : List String := []) 
   | "C15" => oracleC15 lines
   | "C14" => oracleC14 lines
   | _ => {}
+
+/-- Properties whose scenario families never reach a documented panic: a panic of the
+    implementation is a failure in its own right. -/
+def noPanicProps : List String := ["C02", "C03", "C08", "C12", "C14", "C05", "C09", "C04"]
+
+def oracle (prop : String) (lines : List String) (modelCov : List String := []) : OResult :=
+  let r := oracleRaw prop lines modelCov
+  if r.ok && noPanicProps.contains prop && lines.any (· == "OBS panic") then
+    let ln := (lines.findIdx? (· == "OBS panic")).getD 0
+    { r with ok := false, line := ln + 1, detail := "the implementation panicked" }
+  else r
 
 end TV.Driver
